@@ -225,11 +225,11 @@ ARG_OF_PERICENTER    = {omega:8.4f} [deg]
 MEAN_ANOMALY         = {M:8.4f} [deg]
 GM                   = {mu:0.1f} [km**3/s**2]
 
-EPHEMERIS_TYPE       = {tle.tle.type}
-CLASSIFICATION_TYPE  = {tle.tle.classification:}
-NORAD_CAT_ID         = {tle.tle.norad_id}
-ELEMENT_SET_NO       = {tle.tle.element_nb}
-REV_AT_EPOCH         = {tle.tle.revolutions}
+EPHEMERIS_TYPE       = {ephemeris_type}
+CLASSIFICATION_TYPE  = {classification_type}
+NORAD_CAT_ID         = {tle.norad_id}
+ELEMENT_SET_NO       = {tle.element_nb}
+REV_AT_EPOCH         = {tle.revolutions}
 BSTAR                = {bstar:6.9f} [1/ER]
 MEAN_MOTION_DOT      = {ndot: 10.8f} [rev/day**2]
 MEAN_MOTION_DDOT     = {ndotdot:0.1f} [rev/day**3]
@@ -240,6 +240,12 @@ MEAN_MOTION_DDOT     = {ndotdot:0.1f} [rev/day**3]
         omega=code_unit(data, "omega", "deg"),
         M=code_unit(data, "M", "deg"),
         tle=data,
+        # orbits created by Tle.orbit() carry 'type' / 'classification', those
+        # created by the OMM readers 'ephemeris_type' / 'classification_type'
+        ephemeris_type=getattr(data, "ephemeris_type", getattr(data, "type", 0)),
+        classification_type=getattr(
+            data, "classification_type", getattr(data, "classification", "U")
+        ),
         bstar=code_unit(data, "bstar", "1/ER"),
         ndot=code_unit(data, "ndot", "rev/day**2") / 2,
         ndotdot=code_unit(data, "ndotdot", "rev/day**3") / 6,
